@@ -738,6 +738,16 @@ func emptinessFact(s *Seg, field string) (known, empty bool) {
 		if !ok {
 			continue
 		}
+		// x.field == "" / != ""
+		if bo.Op == token.EQL || bo.Op == token.NEQ {
+			for _, pair := range [][2]ssa.Value{{bo.X, bo.Y}, {bo.Y, bo.X}} {
+				if cs, isS := constString(pair[1]); isS && cs == "" {
+					if _, fl, isF := fieldLoad(s.Resolve(pair[0])); isF && fl == field {
+						return true, (bo.Op == token.EQL) == f.Truth
+					}
+				}
+			}
+		}
 		c, ok := bo.X.(*ssa.Call)
 		if !ok {
 			continue
